@@ -49,7 +49,7 @@ func runC04(c *Ctx) {
 		c04Batch(c, []c04Case{wrap.Case}, per)
 		return
 	}
-	files, _ := filepathGlob("/verif/harness/corpus/C04/*.json")
+	files, _ := filepathGlob(verifRoot + "/harness/corpus/C04/*.json")
 	for _, f := range files {
 		var wrap struct{ Case c04Case `json:"case"` }
 		b, err := osReadFile(f)
